@@ -12,11 +12,14 @@ namespace FP.Model
     `inst`: the instant `time.Equal/Before` compare, as its UTC tuple [y,mo,d,h,mi,s·10⁹+ns]
     (modelling assumption about Go's time package: instants are ordered as these tuples are
     ordered lexicographically);
-    `layout`: the Go layout string, whose precision is looked up in the regenerated maps. -/
+    `layout`: the Go layout string, whose precision is looked up in the regenerated maps;
+    `off`: the zone offset the value was read with (comparison never looks at it; arithmetic and
+    rendering are done on the wall-clock reading in that zone). -/
 structure Tmp where
   comps : List Int
   inst : List Int
   layout : String
+  off : Int := 0                 -- DateTime: the offset of the reading in seconds (kept by arithmetic and rendering)
 deriving DecidableEq, Repr
 
 inductive Val where
